@@ -72,4 +72,32 @@ func init() {
 		[]string{"the declared output of a read-only operation is not given storage reachable from the receiver", "no store to receiver-reachable or global memory", "no cursor-advancing or storage-writing call on a receiver-reachable object (fresh copies allowed)", "no package-level mutable scratch state"},
 		[]string{"value-level equality of repeated results", "data races as observed by the race detector"},
 		"the caller's io.ReaderAt honours its documented parallel-use contract")
+	// rules added with the third batch of seeded changes
+	recycle := "nothing handed back to a sync.Pool stays reachable from a result (P.recycle: aliases followed, copies end the trail)"
+	state := "the anchored functions keep nothing in package-level memory between calls (E.state)"
+	more := map[string][]string{
+		"C01": {"parts of the concatenating reader are read at part-relative offsets (J7.partoff)", "only SizeOfRawData == 0 leaves a section out of the digest (J2 only-empty-skipped)", "padding handed out from shared memory is never written (J6.padzero)", state, recycle},
+		"C02": {"the signature fact needs every source of the tested error to be the signature check: a variable that may still be nil does not count", "the C01 additions (J6, J7, only-empty-skipped, E.state, P.recycle)"},
+		"C03": {"the image verifier accepts only behind signer identity and signature by the caller's certificate (family A, as in C02)", "padding handed out from shared memory is never written (M7.padzero)", recycle},
+		"C04": {"the signer's serial number is decoded as an ASN.1 INTEGER, not taken as an unsigned magnitude (A.serial-value)"},
+		"C05": {state, recycle},
+		"C06": {recycle},
+		"C07": {"the size recorded for a list is computed from the bytes that are stored (K7.sized)", "an accepting path on which HeaderSize is never read is reported whatever the shape of the code", state, recycle},
+		"C08": {"inside one list an io.EOF of a read from the caller's stream never ends in a successful return (G4.eofok)", "lists are accepted only with HeaderSize == 0 (A-d)"},
+		"C09": {"the size recorded for a list is computed from the bytes that are stored (K7.sized)", "input is stored unchanged only if pem.Decode found no block or the type is not a certificate type (K8.normalise)"},
+		"C10": {"encoders only append: no write into the buffer's existing content at an offset from its start (G15.append)", "fixed-width fields copied from input-sized bytes are length-checked (G16.short)", "no legal EFI_TIME value is refused by the descriptor decoder (G17.time, boundary values of the UEFI ranges)", state, recycle},
+		"C11": {"typed accessors hand the store a definition carrying the attributes of the definitions table (F12.def)"},
+		"C12": {"once the descriptor decoded, every path stores the payload and not the signed update (F10 always-payload)", "the descriptor decoder used as strip predicate refuses no legal EFI_TIME value (G17.time)"},
+		"C13": {"fixed-width decodes only from slices known to be long enough (T8)", "no unchecked type assertion on a value whose dynamic type the input selects (B.assert)", "every Lock is released on all paths to a return (R.lock)", "a hash function looked up from input is tested before New/Size (B.hash)", "the hashed stream is never read whole into memory (T1.stream)"},
+		"C14": {"fixed-width decodes only from slices known to be long enough (T8)", "no unchecked type assertion on a value whose dynamic type the input selects (B.assert)", "every Lock is released on all paths to a return (R.lock)", "a hash function looked up from input is tested before New/Size (B.hash)"},
+		"C15": {"the count of a direct Read on a dependency is looked at (C6.shortread)", "an error stored by a deferred function counts only if the cell is read back after the defers ran (a result cell)", "state kept on the image object by Hash is stored only behind a complete read (C.order state-after-read)"},
+		"C17": {"the UTF-16 decoder is drained, not read once (A-u.utf16.whole)", state, recycle},
+		"C18": {"every 16-bit entry of BootOrder is decoded: reads run until the value is exhausted, no counter against a shrinking length, no single bounded read (H2.all)", "a load option decoded into a used value replaces it, also field by field (G14.replace)", "text rendering indexes no table with an unchecked field value (T4/T5 over the Format cone)"},
+		"C19": {"no byte buffer kept on the object is written by anything a read-only operation reaches, callbacks from io.Copy included (E.scratch)", "a scratch copy that still shares elements with the receiver is receiver-reachable (append of reference elements, caller cells behind pointer parameters)", recycle},
+	}
+	for k, v := range more {
+		m := Metas[k]
+		m.Decided = append(m.Decided, v...)
+		Metas[k] = m
+	}
 }
